@@ -37,6 +37,20 @@ func (c LimitCase) bytes() []byte {
 			fmt.Fprintf(&b, "X-H%d: v\r\n", i)
 		}
 		b.WriteString("\r\n")
+	case "hdrcount-repeat":
+		// the limit is on header entries, not on distinct keys
+		b.WriteString(first)
+		for i := 0; i < 255+c.Over; i++ {
+			fmt.Fprintf(&b, "Via: v%d\r\n", i)
+		}
+		b.WriteString("\r\n")
+	case "hdrcount-case":
+		b.WriteString(first)
+		for i := 0; i < 255+c.Over; i++ {
+			k := []string{"X-Custom", "x-custom", "X-CUSTOM", "Other-Key"}[i%4]
+			fmt.Fprintf(&b, "%s: v%d\r\n", k, i)
+		}
+		b.WriteString("\r\n")
 	case "key":
 		b.WriteString(first)
 		b.WriteString("X" + strings.Repeat("k", 510+c.Over) + ": v\r\n\r\n")
